@@ -31,12 +31,14 @@ def one(d: Path, tag: str, x: str, store: bool):
     try:
         env = dict(os.environ, PYTHONPATH=f"{wt}/src", MPLBACKEND="agg")
         eq = d / f"equiv_{x}.py"
-        before = sh(["/venv/bin/python", str(eq)], cwd=wt, env=env, timeout=1800)
+        def run_eq():
+            return subprocess.run(["/venv/bin/python", str(eq)], cwd=wt, env=env, timeout=1800, stdout=subprocess.PIPE, stderr=subprocess.DEVNULL, text=True)
+        before = run_eq()
         ap = sh(["git", "-C", wt, "apply", str(d / f"patch_{x}.diff")])
         if ap.returncode != 0:
             res["error"] = "patch does not apply: " + ap.stdout[-200:]
             return res
-        after = sh(["/venv/bin/python", str(eq)], cwd=wt, env=env, timeout=1800)
+        after = run_eq()
         res["equiv_same"] = before.returncode == 0 and after.returncode == 0 and before.stdout == after.stdout
         b = sh(["python3", "/tmp/baseline_check.py", wt], timeout=3600)
         res["baseline"] = b.stdout.strip().splitlines()[0] if b.stdout.strip() else "?"
